@@ -317,7 +317,7 @@ func joinFilter(a []any, sep func(string) string) any {
 	ss := make([]string, 0, len(a))
 	s := sep(" ")
 	for _, v := range a {
-		if v != nil {
+		if v = values.ToLiquid(v); v != nil {
 			ss = append(ss, fmt.Sprint(v))
 		}
 	}
